@@ -285,6 +285,58 @@ func TestC16(t *testing.T) {
 			r.Eval()
 		}
 	}
+	// ---- slots of a named interface type: the dynamic types of later values of a known type count too
+	for i, w := range []*zoo.Drawing{
+		{Layers: []zoo.Layer{{Shapes: []zoo.Shape{zoo.Circle{R: 1}}}, {Shapes: []zoo.Shape{zoo.Square{S: 2}}}}},
+		{Layers: []zoo.Layer{{Shapes: []zoo.Shape{zoo.Circle{R: 1}}}, {ByName: map[string]zoo.Shape{"t": &zoo.Triangle{A: 1}}}}, Top: &zoo.Layer{Shapes: []zoo.Shape{zoo.Square{S: 3}}}},
+		{Top: &zoo.Layer{ByName: map[string]zoo.Shape{"c": zoo.Circle{R: 2}}}, Layers: []zoo.Layer{{}, {Shapes: []zoo.Shape{&zoo.Triangle{B: 2}, zoo.Square{S: 1}}}}},
+	} {
+		r.Current(fmt.Sprintf("C16 named interface slots, witness %d", i))
+		var tm map[string]reflect.Type
+		var nm map[string]string
+		if pv, st := guard(func() { tm, nm = hessian.ExtractTypeNameMap(w) }); pv != nil {
+			directFail(t, "C16", map[string]interface{}{"entry": "ExtractTypeNameMap", "witness": "Drawing", "index": i}, "C16 ExtractTypeNameMap(Drawing #%d) panicked: %v [%s]", i, pv, st)
+		}
+		var held []reflect.Type
+		for _, l := range append(append([]zoo.Layer{}, w.Layers...), func() []zoo.Layer {
+			if w.Top != nil {
+				return []zoo.Layer{*w.Top}
+			}
+			return nil
+		}()...) {
+			for _, s := range l.Shapes {
+				held = append(held, reflect.TypeOf(s))
+			}
+			for _, s := range l.ByName {
+				held = append(held, reflect.TypeOf(s))
+			}
+		}
+		for _, ht := range held {
+			st := ht
+			if st.Kind() == reflect.Ptr {
+				st = st.Elem()
+			}
+			wire, ok := nm[st.Name()]
+			if want, declares := declaredWireName(st); ok && declares && wire != want {
+				ok = false
+			}
+			if got := tm[wire]; !ok || got != st {
+				directFail(t, "C16", map[string]interface{}{"entry": "ExtractTypeNameMap", "witness": "Drawing", "index": i}, "C16 a Drawing holds a %v in a slot of the named interface type Shape: the extracted maps do not name it (name map entry %q, type map gives %v)", ht, wire, got)
+			}
+		}
+		var b []byte
+		var err error
+		if pv, st := guard(func() {
+			if b, err = hessian.ToBytes(w, copyNames(nm)); err == nil {
+				_, err = hessian.ToObject(b, tm)
+			}
+		}); pv != nil || err != nil {
+			directFail(t, "C16", map[string]interface{}{"entry": "ExtractTypeNameMap", "witness": "Drawing", "index": i}, "C16 the maps extracted from a Drawing do not carry it: %v %v [%s]", err, pv, st)
+		}
+		r.Eval()
+		r.NonTrivial(av.Hash(fmt.Sprint("named-iface", i)))
+		r.Label("named interface slots")
+	}
 	// ---- deep values: a class that occurs only far down a chain through interface slots
 	{
 		rng := seedFor("C16deep")
